@@ -131,14 +131,15 @@ d = ln[1] - ln[0]
 def side(t):
     p = bez.point(t) - ln[0]; return (p.real * d.imag - p.imag * d.real)
 N = 20000; cnt = []
-prev = side(0.0)
+prev, iprev = side(0.0), 0
 for i in range(1, N + 1):
     cur = side(i / N)
+    if cur == 0: continue            # a sample exactly on the line: the sign change is seen across it
     if prev * cur < 0:
-        t = (i - 0.5) / N; p = bez.point(t) - ln[0]
+        t = (i + iprev) / 2 / N; p = bez.point(t) - ln[0]
         lam = (p.real * d.real + p.imag * d.imag) / abs(d) ** 2
         if 1e-3 < lam < 1 - 1e-3 and 1e-3 < t < 1 - 1e-3: cnt.append((t, lam))
-    prev = cur
+    prev, iprev = cur, i
 for (t, lam) in cnt:
     hits = [p for p in r1 if abs(p[0] - t) < 1e-3 and abs(p[1] - lam) < 1e-3]
     if len(hits) != 1: REPRODUCED('crossing near (t,line_t)=(%%r,%%r) reported %%d times: %%r' %% (t, lam, len(hits), r1))
@@ -288,6 +289,71 @@ def fam_acceptance(R):
         R.sample({'claim': 'box_area < tol  =>  width, height <= 1e-3'})
 
 
+REPLAY_DEGENERATE = '''
+# straight, axis-parallel Beziers: their boxes have zero area whatever their length
+pairs = [(CubicBezier(0j, 3+0j, 6+0j, 10+0j), CubicBezier(2-1j, 2+2j, 2+5j, 2+9j)),
+         (QuadraticBezier(0j, 5+0j, 40+0j), QuadraticBezier(30-1j, 30+1j, 30+9j)),
+         (CubicBezier(1+1j, 1+4j, 1+5j, 1+20j), QuadraticBezier(-5+3j, 0+3j, 2+3j))]
+for b1, b2 in pairs:
+    for x, y in ((b1, b2), (b2, b1)):
+        r = x.intersect(y)
+        for t1, t2 in r:
+            if abs(x.point(t1) - y.point(t2)) > 1e-3:
+                REPRODUCED('%r.intersect(%r) = %r but point(t1) = %r, point(t2) = %r' % (x, y, r, x.point(t1), y.point(t2)))
+'''
+
+
+def fam_subdivision_step(R):
+    """the first iteration of the real bezier_intersections on two curves known only through their bounding boxes: which pairs
+    of boxes are accepted (reported as an intersection at the mid parameters) and which are dropped."""
+    import svgpathtools.bezier as B
+    from ..stubs import sym_min, sym_max
+    R.bound(iteration='first (depth 0); the split branch is cut', boxes='symbolic, xmin<=xmax, ymin<=ymax', tol_deC=1e-8)
+    R.stub('bezier_bounding_box -> symbolic box of the stub curve', 'bezier_point -> a point inside the box', 'halve_bezier -> cut (path abandoned)',
+           'bezier.min/max -> If-terms')
+
+    class Crv(list):
+        def __init__(self, tag):
+            self.box = [symr(tag + n) for n in ('xmin', 'xmax', 'ymin', 'ymax')]
+            Ctx.cur.assume(self.box[0].e <= self.box[1].e, self.box[2].e <= self.box[3].e)
+            self.pt = symc(tag + 'pt')
+            Ctx.cur.assume(self.box[0].e <= self.pt.real.e, self.pt.real.e <= self.box[1].e, self.box[2].e <= self.pt.imag.e, self.pt.imag.e <= self.box[3].e)
+
+        def __eq__(self, o):
+            return self is o
+        __hash__ = None
+
+    def cut(*a, **k):
+        raise Abort()
+
+    def run():
+        c1, c2 = Crv('a_'), Crv('b_')
+        with patched(B, bezier_bounding_box=lambda c: tuple(c.box), bezier_point=lambda c, t: c.pt, halve_bezier=cut, min=sym_min, max=sym_max):
+            r = B.bezier_intersections(c1, c2, 2e-8, tol=1e-8, tol_deC=1e-8)
+        return c1, c2, r
+
+    for ctx, (kind, val) in explore(run, maxpaths=200):
+        if kind == 'abort':
+            continue
+        R.path(ctx, nontrivial=True)
+        if kind != 'ok':
+            R.unexpected(ctx, 'unexpected %s %r' % (kind, val))
+            continue
+        c1, c2, r = val
+        ext = [c1.box[1] - c1.box[0], c1.box[3] - c1.box[2], c2.box[1] - c2.box[0], c2.box[3] - c2.box[2]]
+        if r:
+            R.ob('accepted.mid-parameters', ctx, z3.BoolVal(len(r) == 1 and r[0] == (0.5, 0.5)))
+            # (B) a zero-area box that is not a point says nothing about the curve's size: must never be accepted
+            R.ob('accepted-boxes-are-not-degenerate', ctx, z3.And(*[e.e > 0 for e in ext]),
+                 cex=lambda m: {'cls': 'subdivision accepts a pair whose box is degenerate (zero width or height, any length)',
+                                'inputs': {'box1': [mval(m, b) for b in c1.box], 'box2': [mval(m, b) for b in c2.box]}, 'script': REPLAY_DEGENERATE})
+            # (A) accepted boxes are small (known finding: thin boxes)
+            R.ob('accepted-boxes-are-small', ctx, z3.And(*[e.e <= 1e-3 for e in ext]), extra=[e.e > 0 for e in ext],
+                 cex=lambda m: {'cls': 'subdivision accepts a pair by box AREA (a long thin box has a small area)',
+                                'inputs': {'box1': [mval(m, b) for b in c1.box], 'box2': [mval(m, b) for b in c2.box]}, 'script': REPLAY_AREA})
+        R.sample({'result': str(r)[:60]})
+
+
 # ----------------------------------------------------------------------------
 # Path.intersect on stub segments
 # ----------------------------------------------------------------------------
@@ -407,6 +473,7 @@ def families(tier):
     for d1, d2 in ((3, 1), (1, 3), (2, 1), (1, 2)):
         fams.append(('prefilter-%s%s' % ('LQC'[d1 - 1], 'LQC'[d2 - 1]), 'vf.props.c12', 'fam_prefilter', {'d1': d1, 'd2': d2}))
     fams.append(('subdivision-acceptance', M, 'fam_acceptance', {}))
+    fams.append(('subdivision-first-step', M, 'fam_subdivision_step', {}))
     fams.append(('path-intersect-1x1x2', M, 'fam_path_intersect', {'n1': 1, 'n2': 1, 'hits': 2}))
     fams.append(('path-intersect-2x1x1', M, 'fam_path_intersect', {'n1': 2, 'n2': 1, 'hits': 1}))
     if tier == 'thorough':
